@@ -665,6 +665,7 @@ TARGETS = [
     ("Src_authz", "is_localhost_uri_src", "idpyoidc.server.oauth2.authorization:is_localhost_uri", {}),
     ("Src_authz", "fragment_encoding_src", "idpyoidc.server.endpoint:fragment_encoding", {}),
     ("Src_authn", "AuthnEvent_is_valid_src", "idpyoidc.server.authn_event:AuthnEvent.is_valid", {}),
+    ("Src_current", "Current_get_src", "idpyoidc.client.current:Current.get", {}),
 ]
 
 
